@@ -63,13 +63,21 @@ fn main() {
             if m.is_dir() { world.push(format!("{}:d", hex(&render(&p)))); walk(&p, world, toc); }
             else if m.is_file() {
                 let body = std::fs::read(&p).unwrap();
-                let too_new = m.modified().unwrap() >= toc;
+                // too new = modified *or changed* (ctime) at or after the start of the compilation
+                let ctime = std::time::UNIX_EPOCH + Duration::new(std::os::unix::fs::MetadataExt::ctime(&m) as u64, std::os::unix::fs::MetadataExt::ctime_nsec(&m) as u32);
+                let too_new = m.modified().unwrap() >= toc || ctime >= toc;
                 world.push(format!("{}:f{}0{}", hex(&render(&p)), too_new as u8, body.windows(8).any(|w| w == b"__TIME__") as u8));
             } else { world.push(format!("{}:o", hex(&render(&p)))); }
         }
     }
+    let mut world_past = world.clone();
     walk(&root, &mut world, toc);
     let world_s = world.join(";");
+    // a second clock: the compilation started a day ago — every file of the tree has been *changed* (ctime) since, although most were last
+    // *modified* a month ago (what a header replaced with its old mtime, cp -p / rsync -t, looks like)
+    let toc_past = now - Duration::from_secs(86400);
+    walk(&root, &mut world_past, toc_past);
+    let world_past_s = world_past.join(";");
     // the symlinked directory exists only for the monitor-only cases (it is created after the walk)
     std::os::unix::fs::symlink("../../far/deep", cwd.join("lnk")).unwrap();
 
@@ -88,10 +96,12 @@ fn main() {
 
     let mut tr = std::io::BufWriter::new(std::fs::File::create(&a[3]).unwrap());
     let mut fails: Vec<String> = vec![]; let mut samples: Vec<String> = vec![];
+    let mut n_past = 0u64;
     let (mut n_err, mut n_panic, mut n_keep, mut n_disable, mut n_recorded, mut n_markers, mut n_checked, mut n_lnk) = (0u64, 0u64, 0u64, 0u64, 0u64, 0u64, 0u64, 0u64);
     let mut distinct = std::collections::HashSet::new(); let mut failed_paths = std::collections::HashSet::new();
     for case in 0..n {
-        let cfg = PreprocessorCacheModeConfig { use_preprocessor_cache_mode: true, file_stat_matches: false, use_ctime_for_stat: true, ignore_time_macros: rng.chance(1, 3), skip_system_headers: rng.chance(1, 2), hash_working_directory: rng.chance(1, 2) };
+        let cfg = PreprocessorCacheModeConfig { use_preprocessor_cache_mode: true, file_stat_matches: false, use_ctime_for_stat: rng.chance(1, 2), ignore_time_macros: rng.chance(1, 3), skip_system_headers: rng.chance(1, 2), hash_working_directory: rng.chance(1, 2) };
+        let past = rng.chance(1, 5); if past { n_past += 1; }
         let well_formed_only = rng.chance(1, 2);      // half of the texts look like real preprocessor output (monitor applies to all, this raises its yield)
         let with_lnk = case % 16 == 15;               // monitor-only: a path through the symlinked directory
         let nl = 1 + rng.below(7); let mut lines: Vec<Line> = vec![];
@@ -121,7 +131,7 @@ fn main() {
         if !well_formed_only && rng.chance(1, 8) { text.extend_from_slice(*rng.pick(&[&b"___________Using distcc-pump"[..], b"# 1 \"a.h", b"# 1 \"", b"# 12345"])); }
         distinct.insert(text.clone());
         let mut buf = text.clone();
-        let res = std::panic::catch_unwind(std::panic::AssertUnwindSafe(|| sccache::verif::verif_process_preprocessed_file(&input, &cwd, &mut buf, cfg, toc)));
+        let res = std::panic::catch_unwind(std::panic::AssertUnwindSafe(|| sccache::verif::verif_process_preprocessed_file(&input, &cwd, &mut buf, cfg, if past { toc_past } else { toc })));
         let (real, keep, recorded): (String, bool, Vec<PathBuf>) = match res {
             Err(_) => { n_panic += 1; ("panic".into(), false, vec![]) }
             Ok(Err(_)) => { n_err += 1; ("err".into(), false, vec![]) }
@@ -131,9 +141,14 @@ fn main() {
                 (format!("ok {} {}", keep as u8, r.iter().map(|x| hex(x)).collect::<Vec<_>>().join(",")), keep, v.into_iter().map(|(p, _)| p).collect())
             }
         };
-        let line = format!("{}{}\t{}\t{}\t{}\t{}\t{}", cfg.skip_system_headers as u8, cfg.ignore_time_macros as u8, hex(cwd.as_os_str().as_bytes()), hex(input.as_os_str().as_bytes()), hex(&text), world_s, real);
+        let line = format!("{}{}\t{}\t{}\t{}\t{}\t{}", cfg.skip_system_headers as u8, cfg.ignore_time_macros as u8, hex(cwd.as_os_str().as_bytes()), hex(input.as_os_str().as_bytes()), hex(&text), if past { &world_past_s } else { &world_s }, real);
         if !with_lnk { writeln!(tr, "{}", line).unwrap(); } else { n_lnk += 1; }
         if samples.len() < 3 { samples.push(format!("{:?} -> {}", String::from_utf8_lossy(&text), if real.len() > 80 { &real[..80] } else { &real })); }
+        // ---- monitor: a header that was changed (ctime) after the compilation started may hold other text than the preprocessor saw: recording its
+        //      digest next to this result would make later compiles hit wrongly — direct mode must be given up for this request, whatever the stat options say
+        if past && keep && !recorded.is_empty() {
+            fails.push(fail_json("changed_header_recorded", &format!("every file of the tree was changed after the start of the compilation, yet {} header(s) were recorded with direct mode still on (use_ctime_for_stat={})", recorded.len(), cfg.use_ctime_for_stat), &[format!("text {:?}", String::from_utf8_lossy(&text)), format!("cfg skip_system_headers={} ignore_time_macros={} use_ctime_for_stat={}", cfg.skip_system_headers, cfg.ignore_time_macros, cfg.use_ctime_for_stat), line.clone()], ""));
+        }
         // ---- monitor: with direct mode still on, every marker file (resolved physically) is recorded
         if keep {
             let rec_canon: Vec<PathBuf> = recorded.iter().filter_map(|p| p.canonicalize().ok()).collect();
@@ -162,6 +177,6 @@ fn main() {
             }
         }
     }
-    std::fs::write(&a[4], format!("{{\"cases\":{},\"distinct_nontrivial\":{},\"to_model\":{},\"monitor_only_symlink_cases\":{},\"err\":{},\"panic\":{},\"kept\":{},\"disabled\":{},\"recorded_files\":{},\"well_formed_markers\":{},\"markers_checked_recorded\":{},\"monitor_failures\":[{}],\"samples\":[{}]}}",
-        n, distinct.len(), n - n_lnk, n_lnk, n_err, n_panic, n_keep, n_disable, n_recorded, n_markers, n_checked, fails.join(","), samples.iter().map(|s| jstr(s)).collect::<Vec<_>>().join(","))).unwrap();
+    std::fs::write(&a[4], format!("{{\"cases\":{},\"distinct_nontrivial\":{},\"to_model\":{},\"monitor_only_symlink_cases\":{},\"err\":{},\"panic\":{},\"kept\":{},\"disabled\":{},\"recorded_files\":{},\"well_formed_markers\":{},\"markers_checked_recorded\":{},\"compilation_clock_in_the_past\":{},\"monitor_failures\":[{}],\"samples\":[{}]}}",
+        n, distinct.len(), n - n_lnk, n_lnk, n_err, n_panic, n_keep, n_disable, n_recorded, n_markers, n_checked, n_past, fails.join(","), samples.iter().map(|s| jstr(s)).collect::<Vec<_>>().join(","))).unwrap();
 }
